@@ -491,7 +491,36 @@ fn check_spec_parse(d: &[u8], obs: &Sub<ParseObs>, o: &mut Oracle) {
 // the engine
 // ------------------------------------------------------------------------------------------------
 
-pub struct WireEngine;
+/// What the last `session` op left for the generator: the genuine sender packets (so that the generator can
+/// show a subsample to the model through `rewidth` / `parse` / `rfc` ops) and its statistics.  The generator never
+/// calls flute itself: every real-code call happens inside `Engine::exec` (harness watchdog, replayability).
+#[derive(Default)]
+pub(crate) struct Stash {
+    /// packets read from the real Sender
+    pub stream: Vec<Vec<u8>>,
+    /// family `rewidth`: the same packets re-serialised at the policy's width flags, and those flags
+    pub re: Vec<Vec<u8>>,
+    pub flags: Vec<(u8, u8, u8, u8)>,
+    /// the sender produced a session
+    pub produced: bool,
+    /// the baseline reception delivered every object with the content that was sent
+    pub baseline_ok: bool,
+    /// packets whose width flags differ from the original
+    pub changed: usize,
+    /// distribution counters / non-trivial keys for the statistics
+    pub notes: Vec<(String, u64)>,
+    pub nontrivial: Vec<String>,
+}
+
+impl Stash {
+    pub fn note(&mut self, key: &str, n: u64) {
+        self.notes.push((key.to_string(), n));
+    }
+}
+
+pub struct WireEngine {
+    stash: std::rc::Rc<std::cell::RefCell<Stash>>,
+}
 
 struct PktArgs {
     oti: OtiV,
@@ -941,6 +970,28 @@ impl WireEngine {
         Some(flat.show(show_pid, "ok "))
     }
 
+    /// `parse_alc_pkt` + `get_fec_inline_payload_id` (the codec of the packet's codepoint, no OTI)
+    fn op_ipid(&self, t: &[&str], o: &mut Oracle) -> Option<String> {
+        if t.len() != 1 {
+            return None;
+        }
+        let d = rd::unhex(t[0])?;
+        let obs: Sub<Pid> = Sub::of(guarded(AssertUnwindSafe(|| {
+            parse_alc_pkt(&d).and_then(|p| hk::get_fec_inline_payload_id(&p).map(|i| (i.sbn, i.esi, i.source_block_length)))
+        })));
+        if let Some(l) = obs.panic_loc() {
+            o.fail(&panic_cls(l), &format!("parse_alc_pkt + get_fec_inline_payload_id panics at {}", l));
+        }
+        // without EXT_FTI `parse_payload_id` (P= of `parse`) and the inline variant are the same decoding,
+        // except for RS GF(2^m) (codepoint 2), which has no inline payload id
+        if let Sub::Ok(po) = flute_parse(&d, PidOti::Default) {
+            if po.lct.cp != 2 && po.oti.is_none() && obs != po.pid {
+                o.fail("C06:ipid-ne-pid", &format!("get_fec_inline_payload_id = {:?}, parse_payload_id = {:?} (codepoint {}, no EXT_FTI)", obs, po.pid, po.lct.cp));
+            }
+        }
+        Some(obs.show(show_pid, "ok "))
+    }
+
     fn op_ntp(&self, t: &[&str], o: &mut Oracle) -> Option<String> {
         if t.len() != 1 {
             return None;
@@ -995,6 +1046,7 @@ impl Engine for WireEngine {
             "close" => self.op_close(a, o),
             "parse" => self.op_parse(a, o),
             "pid" => self.op_pid(a, o),
+            "ipid" => self.op_ipid(a, o),
             "ntp" => self.op_ntp(a, o),
             "untp" => self.op_untp(a, o),
             "rfc" if a.len() == 1 => rd::unhex(a[0]).map(|d| rd::show_decode(&d)),
@@ -1004,6 +1056,16 @@ impl Engine for WireEngine {
                 let w: Vec<u64> = a[1..].iter().map(|x| nat(x).map(|v| v.min(u64::MAX as u128) as u64)).collect::<Option<_>>()?;
                 Some(rd::rewidth(&d, w[0], w[1], w[2], w[3]).map_or("ERR".to_string(), |r| format!("ok {}", hex(&r))))
             })(),
+            // oracle-only: a whole real Sender -> Receiver session runs inside this op (model answer: `ok`)
+            "session" if !a.is_empty() => {
+                let mut st = self.stash.borrow_mut();
+                *st = Stash::default();
+                match a[0] {
+                    "rewidth" => rewidth::exec(&a[1..], o, &mut st),
+                    "sender-range" => sender_range::exec(&a[1..], o, &mut st),
+                    _ => None,
+                }
+            }
             _ => None,
         };
         r.unwrap_or_else(|| "bad-op".to_string())
@@ -1015,5 +1077,7 @@ fn main() {
         eprintln!("rfcdec self test failed: {}", e);
         std::process::exit(3);
     }
-    harness_core::engine_main("wire", || Box::new(WireEngine), generator::run);
+    let stash = std::rc::Rc::new(std::cell::RefCell::new(Stash::default()));
+    let (s1, s2) = (stash.clone(), stash);
+    harness_core::engine_main("wire", move || Box::new(WireEngine { stash: s1.clone() }), move |ctx, eng| generator::run(ctx, eng, s2));
 }
